@@ -2,13 +2,19 @@ package main
 
 import (
 	"fmt"
-	tq "github.com/facebookincubator/tacquito"
-	"pgregory.net/rapid"
-	"github.com/prometheus/client_golang/prometheus"
+	"os"
 )
 
 func main() {
-	_ = rapid.Int
-	_ = prometheus.DefaultGatherer
-	fmt.Println(tq.MaxBodyLength)
+	if len(os.Args) < 2 {
+		fmt.Fprintln(os.Stderr, "usage: vh <cmd> ...")
+		os.Exit(2)
+	}
+	switch os.Args[1] {
+	case "chaos":
+		cmdChaos(os.Args[2:])
+	default:
+		fmt.Fprintln(os.Stderr, "unknown command", os.Args[1])
+		os.Exit(2)
+	}
 }
